@@ -167,6 +167,7 @@ var plans = map[string]*Plan{
 	"C15": {
 		Level:     "exploration",
 		Scenarios: []ScenPlan{{"sysplug", 12000, 250000}, {"sysfault", 8000, 120000}},
+		RacePhase: []ScenPlan{{"sysrace", 600, 9000}},
 		QuickWallS: 150, ThoroughWallS: 1700,
 		Rule:        "Scenario sysplug with gzip in a drawn chain position (optionally with size_limit/logging): Accept-Encoding spellings, content types in/outside the configured prefixes, sizes around min_size, compressible/incompressible payloads, pre-encoded backend responses (gzip, br), levels -1..9, bodiless statuses; oracle: decode the client's bytes by the Content-Encoding/Content-Length it received == backend body, status equal, compressed only if eligible, otherwise byte-identical (C01 oracle). The 10MB buffering cap is not exercised in the quick tier.",
 		Real:        sysReal, Stub: sysStub, Assumptions: commonAssumptions,
